@@ -108,3 +108,286 @@ def iriSafeSets : List (String × List Char) := [
 end Wz.Gen.UrlTables
 """
     return write("UrlTables", body, "src/werkzeug/urls.py, src/werkzeug/sansio/utils.py")
+
+
+# ---------------------------------------------------------------------------
+# UrlGlue: constants, literal sets and small finite decisions of the glue around the URL core
+# (get_host, EnvironBuilder, ProxyFix, DispatcherMiddleware), each tied to the model by a
+# `decide` obligation in Props/C15.lean.
+
+
+def _parse(relpath):
+    return ast.parse(open(os.path.join(REPO, "src", "werkzeug", relpath)).read())
+
+
+def _find_func(tree, qual):
+    """FunctionDef by dotted name ('Class.method', 'Class.method.inner' or 'function'); for a property with a
+    setter the name 'Class.attr@setter' selects the setter"""
+    want_setter = qual.endswith("@setter")
+    names = qual.replace("@setter", "").split(".")
+    nodes = [tree]
+    for i, nm in enumerate(names):
+        nxt = []
+        for node in nodes:
+            for ch in ast.walk(node) if i == len(names) - 1 and isinstance(node, ast.FunctionDef) else ast.iter_child_nodes(node):
+                if isinstance(ch, (ast.FunctionDef, ast.ClassDef)) and ch.name == nm and ch is not node:
+                    nxt.append(ch)
+        nodes = nxt
+    if want_setter:
+        nodes = [n for n in nodes if any(isinstance(d, ast.Attribute) and d.attr == "setter" for d in n.decorator_list)]
+    else:
+        nodes = [n for n in nodes if not any(isinstance(d, ast.Attribute) and d.attr == "setter" for d in getattr(n, "decorator_list", []))]
+    if len(nodes) != 1:
+        raise RuntimeError(f"{qual}: expected exactly one definition, found {len(nodes)}")
+    return nodes[0]
+
+
+URL_CALLEES = {
+    "quote", "unquote", "urlsplit", "urlunsplit", "urlencode", "iri_to_uri", "uri_to_iri", "_urlencode",
+    "_wsgi_encoding_dance", "_wsgi_decoding_dance", "get_current_url", "_sansio_utils.get_current_url", "get_host",
+    "_make_base_url", "cls._make_base_url", "self._make_base_url", "_path_encode", "parse_qsl", "parse_list_header",
+}
+
+
+def _calls_in_order(fn):
+    out = []
+    for n in sorted((n for n in ast.walk(fn) if isinstance(n, ast.Call)), key=lambda n: (n.lineno, n.col_offset)):
+        name = ast.unparse(n.func)
+        if name in URL_CALLEES:
+            out.append(name)
+    return out
+
+
+def get_host_rules():
+    """the `if scheme in {...} and host.endswith(":N"): host = host[:-k]` chain of sansio.utils.get_host"""
+    fn = _find_func(_parse("sansio/utils.py"), "get_host")
+    rules = []
+
+    def visit_if(node):
+        t = node.test
+        ok = (
+            isinstance(t, ast.BoolOp) and isinstance(t.op, ast.And) and len(t.values) == 2
+            and isinstance(t.values[0], ast.Compare) and ast.unparse(t.values[0].left) == "scheme"
+            and len(t.values[0].ops) == 1 and isinstance(t.values[0].ops[0], ast.In)
+            and isinstance(t.values[0].comparators[0], ast.Set)
+            and isinstance(t.values[1], ast.Call) and ast.unparse(t.values[1].func) == "host.endswith"
+            and len(t.values[1].args) == 1 and isinstance(t.values[1].args[0], ast.Constant)
+            and len(node.body) == 1 and isinstance(node.body[0], ast.Assign) and ast.unparse(node.body[0].targets[0]) == "host"
+        )
+        if not ok:
+            return False
+        v = node.body[0].value
+        if not (isinstance(v, ast.Subscript) and ast.unparse(v.value) == "host" and isinstance(v.slice, ast.Slice) and v.slice.lower is None and isinstance(v.slice.upper, ast.UnaryOp) and isinstance(v.slice.upper.op, ast.USub) and isinstance(v.slice.upper.operand, ast.Constant)):
+            raise RuntimeError(f"sansio/utils.py:{node.lineno}: get_host: the default port is not removed by a slice host[:-k]")
+        schemes = sorted(e.value for e in t.values[0].comparators[0].elts)
+        rules.append((schemes, t.values[1].args[0].value, v.slice.upper.operand.value))
+        for o in node.orelse:
+            if isinstance(o, ast.If):
+                visit_if(o)
+        return True
+
+    for st in fn.body:
+        if isinstance(st, ast.If) and visit_if(st):
+            break
+    if not rules:
+        raise RuntimeError("sansio/utils.py: get_host: default-port rule chain not found")
+    return rules
+
+
+def make_unquote_part_sites():
+    """`_unquote_<name> = _make_unquote_part("<name>", _always_unsafe [+ "<extra>"])` in urls.py"""
+    tree = _parse("urls.py")
+    out = []
+    for st in tree.body:
+        if isinstance(st, ast.Assign) and isinstance(st.value, ast.Call) and ast.unparse(st.value.func) == "_make_unquote_part":
+            name, chars = st.value.args
+            if isinstance(chars, ast.Name) and chars.id == "_always_unsafe":
+                extra = ""
+            elif isinstance(chars, ast.BinOp) and isinstance(chars.op, ast.Add) and ast.unparse(chars.left) == "_always_unsafe" and isinstance(chars.right, ast.Constant):
+                extra = chars.right.value
+            else:
+                raise RuntimeError(f"urls.py:{st.lineno}: unexpected keep-set expression {ast.unparse(chars)}")
+            out.append((ast.unparse(st.targets[0]), name.value, extra))
+    return out
+
+
+def environ_dict_entries():
+    """the URL-related entries of the dict literal in EnvironBuilder.get_environ, and _path_encode / raw_uri"""
+    fn = _find_func(_parse("test.py"), "EnvironBuilder.get_environ")
+    want = ["SCRIPT_NAME", "PATH_INFO", "QUERY_STRING", "REQUEST_URI", "RAW_URI", "SERVER_NAME", "SERVER_PORT", "HTTP_HOST", "wsgi.url_scheme"]
+    found = {}
+    for n in ast.walk(fn):
+        if isinstance(n, ast.Dict):
+            for k, v in zip(n.keys, n.values):
+                if isinstance(k, ast.Constant) and k.value in want:
+                    found.setdefault(k.value, []).append(ast.unparse(v))
+    rows = []
+    for k in want:
+        if len(found.get(k, [])) != 1:
+            raise RuntimeError(f"test.py: get_environ: expected exactly one dict entry for {k}")
+        rows.append((k, found[k][0]))
+    inner = _find_func(_parse("test.py"), "EnvironBuilder.get_environ._path_encode")
+    rows.append(("_path_encode(x)", "; ".join(ast.unparse(s) for s in inner.body)))
+    raw = [ast.unparse(s.value) for s in ast.walk(fn) if isinstance(s, ast.Assign) and ast.unparse(s.targets[0]) == "raw_uri"]
+    if len(raw) != 1:
+        raise RuntimeError("test.py: get_environ: expected exactly one assignment to raw_uri")
+    rows.append(("raw_uri", raw[0]))
+    # later writes into the result dict for these keys (result["PATH_INFO"] = ...) would bypass the literal
+    for n in ast.walk(fn):
+        if isinstance(n, ast.Subscript) and isinstance(n.ctx, ast.Store) and isinstance(n.slice, ast.Constant) and n.slice.value in want:
+            raise RuntimeError(f"test.py:{n.lineno}: get_environ writes {n.slice.value} outside the dict literal")
+    return rows
+
+
+def _stored_keys(nodes, var="environ"):
+    keys = []
+    for st in nodes:
+        for n in sorted((n for n in ast.walk(st) if isinstance(n, ast.Subscript) and isinstance(n.ctx, ast.Store)), key=lambda n: (n.lineno, n.col_offset)):
+            if ast.unparse(n.value) == var:
+                keys.append(n.slice.value if isinstance(n.slice, ast.Constant) else "<" + ast.unparse(n.slice) + ">")
+    return keys
+
+
+def proxyfix_writes():
+    """per trusted header of ProxyFix.__call__: (trust attribute, environ key read, environ keys written)"""
+    fn = _find_func(_parse("middleware/proxy_fix.py"), "ProxyFix.__call__")
+    rows, cur = [], {}
+    for st in fn.body:
+        if isinstance(st, ast.Assign) and isinstance(st.value, ast.Call) and ast.unparse(st.value.func) == "self._get_real_value":
+            a, b = st.value.args
+            if not (isinstance(b, ast.Call) and ast.unparse(b.func) == "environ_get" and isinstance(b.args[0], ast.Constant)):
+                raise RuntimeError(f"proxy_fix.py:{st.lineno}: unexpected header expression")
+            cur[ast.unparse(st.targets[0])] = (ast.unparse(a).replace("self.", ""), b.args[0].value)
+        elif isinstance(st, ast.If) and isinstance(st.test, ast.Name) and st.test.id in cur:
+            attr, hdr = cur[st.test.id]
+            rows.append((attr, hdr, _stored_keys(st.body)))
+        elif isinstance(st, (ast.Return,)) or (isinstance(st, ast.Assign) and not _stored_keys([st])) or (isinstance(st, ast.Expr) and ast.unparse(st.value).startswith("environ.update(")):
+            continue
+        elif _stored_keys([st]):
+            raise RuntimeError(f"proxy_fix.py:{st.lineno}: environ written outside a trusted-header block")
+    if len(rows) != len(cur):
+        raise RuntimeError("proxy_fix.py: a trusted header value is computed but not used in an `if x:` block")
+    upd = [n for n in ast.walk(fn) if isinstance(n, ast.Call) and ast.unparse(n.func) == "environ.update"]
+    updkeys = []
+    for u in upd:
+        for n in ast.walk(u.args[0]) if u.args else []:
+            if isinstance(n, ast.Dict):
+                updkeys += [k.value for k in n.keys if isinstance(k, ast.Constant)]
+                break
+    return rows, updkeys
+
+
+def dispatcher_writes():
+    fn = _find_func(_parse("middleware/dispatcher.py"), "DispatcherMiddleware.__call__")
+    reads = sorted({n.args[0].value for n in ast.walk(fn) if isinstance(n, ast.Call) and ast.unparse(n.func) == "environ.get" and isinstance(n.args[0], ast.Constant)})
+    return _stored_keys(fn.body), reads
+
+
+CALL_SITES = [
+    ("test.py", "EnvironBuilder.__init__"),
+    ("test.py", "EnvironBuilder.from_environ"),
+    ("test.py", "EnvironBuilder._make_base_url"),
+    ("test.py", "EnvironBuilder.base_url"),
+    ("test.py", "EnvironBuilder.base_url@setter"),
+    ("test.py", "EnvironBuilder.query_string"),
+    ("test.py", "EnvironBuilder.get_environ"),
+    ("sansio/utils.py", "get_current_url"),
+    ("wsgi.py", "get_current_url"),
+    ("wrappers/request.py", "Request.__init__"),
+    ("sansio/request.py", "Request.args"),
+    ("sansio/request.py", "Request.url"),
+    ("sansio/request.py", "Request.base_url"),
+    ("sansio/request.py", "Request.root_url"),
+    ("sansio/request.py", "Request.host_url"),
+    ("sansio/request.py", "Request.host"),
+    ("middleware/proxy_fix.py", "ProxyFix._get_real_value"),
+    ("urls.py", "_urlencode"),
+]
+
+
+@generator("UrlGlue")
+def gen_urlglue():
+    from werkzeug.sansio.utils import get_host
+    from werkzeug.test import EnvironBuilder
+
+    rules = get_host_rules()
+    schemes = ["http", "https", "ws", "wss", "ftp", "", "HTTP"]
+    hosts = ["h", "h:80", "h:443", "h:8080", "10.0.0.80:80", "10.0.0.80", "h80", "h:080", "h:80:80", "[::1]", "[::1]:80", "[::80]:80", "[::1]:443", "x443:443", ":80", ":443", "80", "", "h:4430", "h:180"]
+    host_rows = [(s, h, get_host(s, h)) for s in schemes for h in hosts]
+    srv_rows = []
+    for s in ["http", "https", "ws", "wss", "ftp"]:
+        for h in ["h", "h:80", "h:443", "h:8080", "h:0", "h:", "h:x", "[::1]", "[::1]:5000", "a:1:2"]:
+            b = EnvironBuilder()
+            b.url_scheme, b.host = s, h
+            try:
+                srv_rows.append((s, b.host, b.server_name, b.server_port))
+            finally:
+                b.close()
+    keeps = make_unquote_part_sites()
+    env_rows = environ_dict_entries()
+    pf_rows, pf_saved = proxyfix_writes()
+    dw, dr = dispatcher_writes()
+    sites = []
+    for rel, qual in CALL_SITES:
+        sites.append((rel, qual, _calls_in_order(_find_func(_parse(rel), qual))))
+    import inspect
+
+    from werkzeug.middleware.proxy_fix import ProxyFix
+
+    rv = _find_func(_parse("middleware/proxy_fix.py"), "ProxyFix._get_real_value")
+    rv_body = [" ".join(ast.unparse(st).split()) for st in rv.body if not (isinstance(st, ast.Expr) and isinstance(st.value, ast.Constant))]
+    sig = inspect.signature(ProxyFix.__init__)
+    defaults = [(k, p.default) for k, p in sig.parameters.items() if k.startswith("x_")]
+
+    def strs(xs):
+        return "[" + ", ".join(lean_str(x) for x in xs) + "]"
+
+    body = f"""namespace Wz.Gen.UrlGlue
+
+/-- the default-port chain of `sansio.utils.get_host` (AST): (schemes, suffix tested with `endswith`,
+number of characters cut by `host[:-k]`) -/
+def getHostRules : List (List String × String × Nat) := [
+  {(',' + chr(10) + '  ').join(f'({strs(s)}, {lean_str(suf)}, {k})' for s, suf, k in rules)}]
+
+/-- `get_host(scheme, host_header)` evaluated on scheme x host (live function): (scheme, host, result) -/
+def getHostTable : List (String × String × String) := [
+  {(',' + chr(10) + '  ').join(f'({lean_str(s)}, {lean_str(h)}, {lean_str(r)})' for s, h, r in host_rows)}]
+
+/-- an `EnvironBuilder` with `url_scheme` / `host` set: (scheme, host, server_name, server_port) (live object) -/
+def builderServerTable : List (String × String × String × Nat) := [
+  {(',' + chr(10) + '  ').join(f'({lean_str(s)}, {lean_str(h)}, {lean_str(n)}, {p})' for s, h, n, p in srv_rows)}]
+
+/-- `_unquote_<name> = _make_unquote_part(name, _always_unsafe + extra)` (AST): (variable, name, extra) -/
+def keepExtra : List (String × String × List Char) := [
+  {(',' + chr(10) + '  ').join(f'({lean_str(v)}, {lean_str(n)}, {lean_str(e)}.toList)' for v, n, e in keeps)}]
+
+/-- the URL-related entries of the dict literal in `EnvironBuilder.get_environ` (AST, unparsed),
+the body of `_path_encode` and the `raw_uri` assignment -/
+def environEntries : List (String × String) := [
+  {(',' + chr(10) + '  ').join(f'({lean_str(k)}, {lean_str(v)})' for k, v in env_rows)}]
+
+/-- `ProxyFix.__call__` (AST): per trusted header (trust attribute, environ key read, environ keys
+assigned inside its `if value:` block, in order) -/
+def proxyFixWrites : List (String × String × List String) := [
+  {(',' + chr(10) + '  ').join(f'({lean_str(a)}, {lean_str(h)}, {strs(ks)})' for a, h, ks in pf_rows)}]
+
+/-- the statements of `ProxyFix._get_real_value` (AST, unparsed, docstring dropped) -/
+def realValueBody : List String := {strs(rv_body)}
+
+/-- keys saved into `werkzeug.proxy_fix.orig` -/
+def proxyFixSaved : List String := {strs(pf_saved)}
+
+/-- `ProxyFix.__init__` defaults of the trust counts -/
+def proxyFixDefaults : List (String × Nat) := [{', '.join(f'({lean_str(k)}, {v})' for k, v in defaults)}]
+
+/-- `DispatcherMiddleware.__call__` (AST): environ keys assigned, environ keys read with `environ.get` -/
+def dispatcherWrites : List String := {strs(dw)}
+def dispatcherReads : List String := {strs(dr)}
+
+/-- the URL helper calls of each glue function, in source order (AST): (file, function, callees) -/
+def callSites : List (String × String × List String) := [
+  {(',' + chr(10) + '  ').join(f'({lean_str(r)}, {lean_str(q)}, {strs(cs)})' for r, q, cs in sites)}]
+
+end Wz.Gen.UrlGlue
+"""
+    return write("UrlGlue", body, "src/werkzeug/{sansio/utils,test,urls,wsgi}.py, middleware/{proxy_fix,dispatcher}.py, {sansio,wrappers}/request.py")
